@@ -141,6 +141,11 @@ func c10Server(w *mon.W, P uint32, V string, vi int) {
 		return
 	}
 	rs := h.take()
+	if len(rs) == 0 && h.served() && h.serveErr != nil && strings.Contains(h.serveErr.Error(), "deadline exceeded") {
+		// ServeConn's real 1 s negotiation timeout ran out before the Tversion was served (loaded machine)
+		w.Inconclusive("negotiation timeout in ServeConn before the handshake was served: %v", h.serveErr)
+		return
+	}
 	if pipelined {
 		if len(rs) != 2 || rs[1].Type != p9p.Rwrite || len(seenWrite) != c10min(P)-23 {
 			bad("pipelined-first-request-lost", "a request of exactly the agreed size sent right behind the Tversion was not served: replies %s, handler saw %d bytes", describeReplies(rs), len(seenWrite))
